@@ -127,7 +127,11 @@ def attribute(doc: str, xa, xb, o) -> str | None:
     nd = c01.neutralise(doc)
     if nd != doc:
         try:
-            if extract(nd.strip() + "\n") == extract(reformat_text(nd, **o)):
+            ok = extract(nd.strip() + "\n") == extract(reformat_text(nd, **o))
+            if not ok:
+                nd = c01.neutralise_hard(doc)      # the fence tracker of neutralise can lose track; see c01.attribute
+                ok = nd != doc and extract(nd.strip() + "\n") == extract(reformat_text(nd, **o))
+            if ok:
                 for fid, rx in c01.TRIGGERS:
                     if rx.search(doc):
                         return fid
